@@ -186,7 +186,7 @@ def gen_interp_faces(rng, kind):
 def gen(rng, tier):
     n = {"quick": 700, "thorough": 5000, "search": 1500}[tier]
     out = []
-    kinds = ["ed"] * 5 + ["edi"] * 4 + ["fbp", "fbp", "fbc", "ebp", "ebc", "dom", "dom"] + ["prune"] * 2 + ["prune2"] + ["saw"] * 3 + ["lpi"] * 3
+    kinds = ["ed"] * 5 + ["edi"] * 4 + ["fbp", "fbp", "fbc", "ebp", "ebc", "dom", "dom"] + ["prune"] * 2 + ["prune2"] + ["fvn", "fvn", "fvr"] + ["saw"] * 3 + ["lpi"] * 3
     for _ in range(n):
         kind = rng.choice(kinds)
         d = rng.choice([1, 2, 2, 3, 3, 4, 5])
@@ -217,6 +217,23 @@ def gen(rng, tier):
             out.append("ebc %s %d" % (vecs(l, d), rng.randint(0, len(l))))
         elif kind == "prune":
             out.append("prune " + vecs(rand_vecset(rng, d, min(sz, 16)), d))
+        elif kind in ("fvn", "fvr"):          # vertex enumeration: small integer / half-integer planes, dims 2..4
+            dd = rng.choice([2, 2, 3, 3, 4])
+            def plane():
+                r = rng.random()
+                if r < 0.6:
+                    return [F(rng.randint(-6, 12), rng.choice([1, 1, 2])) for _ in range(dd)]
+                i = rng.randrange(dd)                      # spike: crosses the others inside faces
+                return [F(rng.randint(8, 14)) if j == i else F(rng.randint(-10, 0)) for j in range(dd)]
+            if kind == "fvn":
+                news = [plane() for _ in range(rng.choice([1, 1, 2]))]
+                alphas = [plane() for _ in range(rng.choice([1, 2, 3, 4, 5]))]
+                out.append("fvn %s %s" % (vecs(news, dd), vecs(alphas, dd)))
+            else:
+                rg = [plane() for _ in range(rng.choice([2, 3, 4, 5]))]
+                if rng.random() < 0.1:
+                    rg.append(list(rng.choice(rg)))        # duplicate plane: singular systems
+                out.append("fvr %s" % vecs(rg, dd))
         elif kind == "prune2":                # one Pruner object reused on two sets of different sizes
             big = rng.choice([8, 10, 12, 16]); small = rng.choice([3, 4, 5, 6])
             a, b = (big, small) if rng.random() < 0.7 else (small, big)
